@@ -463,12 +463,15 @@ class CuckooFilter:
     def _expand_logic(self, extra_fingerprint):
         """the logic to acutally expand the cuckoo filter"""
         # get all the fingerprints
+        previous = (self._cuckoo_capacity, self._buckets, self._inserted_elements)
         fingerprints = self._setup_expand(extra_fingerprint)
 
         for finger in fingerprints:
             idx_1, idx_2 = self._indicies_from_fingerprint(finger)
             res = self._insert_fingerprint(finger, idx_1, idx_2)
             if res is not None:  # again, this *shouldn't* happen
+                # go back to the table as it was; a half rebuilt one would lose elements
+                self._cuckoo_capacity, self._buckets, self._inserted_elements = previous
                 msg = "The CuckooFilter failed to expand"
                 raise CuckooFilterFullError(msg)
 
